@@ -929,8 +929,25 @@ func (v *VMValue) OpPower(ctx *Context, v2 *VMValue) *VMValue {
 	case VMTypeInt:
 		switch v2.TypeId {
 		case VMTypeInt:
-			val := IntType(math.Pow(float64(v.Value.(IntType)), float64(v2.Value.(IntType))))
-			return NewIntVal(val)
+			a, b := v.Value.(IntType), v2.Value.(IntType)
+			f := math.Pow(float64(a), float64(b))
+			// 2^53 以上 float64 不能表示每个整数(3**35 会差 3): 结果仍在 IntType 范围内时按整数相乘得到精确值。
+			// 此时 |a| >= 2，所以 b 不超过 63，循环次数有界
+			if b >= 2 && b <= 63 && math.Abs(f) >= 1<<53 && math.Abs(f) < 1<<64 {
+				r, exact := IntType(1), true
+				for i := IntType(0); i < b; i++ {
+					n := r * a
+					if n/a != r {
+						exact = false
+						break
+					}
+					r = n
+				}
+				if exact {
+					return NewIntVal(r)
+				}
+			}
+			return NewIntVal(IntType(f))
 		case VMTypeFloat:
 			val := math.Pow(float64(v.Value.(IntType)), v2.Value.(float64))
 			return NewFloatVal(val)
